@@ -116,6 +116,36 @@ pub mod rnd {
     }
 }
 
+/// `kani` with anchored draws.  Harness files import this module under the name `kani`, so every
+/// `kani::any()` in a harness goes through [`k::any`]: the drawn value is tied to a trivially
+/// satisfiable cover property ("verif-anchor").  CBMC drops assignments no property depends on, and
+/// Kani's concrete playback then omits those draws from the generated test, which shifts the later
+/// values onto the wrong draws in a native replay.  With the anchor every draw is part of the
+/// formula, every value is in the trace, and the native replay consumes them in exact order.
+pub mod k {
+    pub use ::kani::*;
+    #[inline(never)]
+    pub fn any<T: ::kani::Arbitrary>() -> T {
+        let v = ::kani::any::<T>();
+        #[cfg(not(verif_replay))]
+        anchor(&v);
+        v
+    }
+    #[cfg(not(verif_replay))]
+    fn anchor<T>(v: &T) {
+        let n = std::mem::size_of::<T>();
+        let p = v as *const T as *const u8;
+        let mut acc: u128 = 0;
+        // loop-free fold of up to 256 bytes (sizes are compile-time constants per instantiation)
+        macro_rules! chunk { ($($k:expr),*) => { $( if n >= ($k + 1) * 16 { acc ^= unsafe { std::ptr::read_unaligned(p.add($k * 16) as *const u128) }; } )* } }
+        chunk!(0, 1, 2, 3, 4, 5, 6, 7, 8, 9, 10, 11, 12, 13, 14, 15);
+        let base = (n / 16) * 16;
+        macro_rules! tail { ($($k:expr),*) => { $( if n < 256 && base + $k < n { acc ^= (unsafe { *p.add(base + $k) } as u128) << (8 * $k); } )* } }
+        tail!(0, 1, 2, 3, 4, 5, 6, 7, 8, 9, 10, 11, 12, 13, 14);
+        ::kani::cover!(n == 0 || acc != 0x5a5a, "verif-anchor");
+    }
+}
+
 /// `alloc::fmt::format` stand-in where formatting is not the subject.
 pub fn fmt_stub(_: std::fmt::Arguments<'_>) -> String {
     String::new()
